@@ -216,7 +216,43 @@ pub fn worker_main(
 
 /// Execute one case in a child process (`mc case <prop>` reading the case on stdin). The child
 /// prints one JSON line describing the outcome.
-fn run_isolated(prop: &str, case: &Value, timeout_s: u64, timeout_is_violation: bool) -> Outcome {
+pub fn run_isolated(prop: &str, case: &Value, timeout_s: u64, timeout_is_violation: bool) -> Outcome {
+    // A timed-out child reports how far it got ({"progress": "<step>|<fingerprint>|<what>"});
+    // the case is then resumed after that step, so that one hang does not hide the rest.
+    let mut case = case.clone();
+    let mut acc: Vec<Violation> = vec![];
+    let mut rounds = 0;
+    loop {
+        let mut o = run_isolated_once(prop, &case, timeout_s, timeout_is_violation);
+        rounds += 1;
+        let resume = o
+            .violation
+            .as_ref()
+            .filter(|v| v.fingerprint.starts_with("hang:"))
+            .and_then(|v| v.msg.rsplit("[resume-after ").next().and_then(|s| s.trim_end_matches(']').parse::<u64>().ok()));
+        match resume {
+            Some(k) if rounds < 8 => {
+                acc.push(o.violation.take().unwrap());
+                acc.extend(o.more.drain(..));
+                case["skip"] = serde_json::json!(k + 1);
+            }
+            _ => {
+                let mut all: Vec<Violation> = acc;
+                all.extend(o.violation.take());
+                all.extend(o.more.drain(..));
+                // dedupe by fingerprint
+                let mut seen = std::collections::BTreeSet::new();
+                all.retain(|v| seen.insert(v.fingerprint.clone()));
+                let mut it = all.into_iter();
+                o.violation = it.next();
+                o.more = it.collect();
+                return o;
+            }
+        }
+    }
+}
+
+fn run_isolated_once(prop: &str, case: &Value, timeout_s: u64, timeout_is_violation: bool) -> Outcome {
     let exe = std::env::current_exe().unwrap();
     let mut child = Command::new(exe)
         .arg("case")
@@ -259,10 +295,26 @@ fn run_isolated(prop: &str, case: &Value, timeout_s: u64, timeout_is_violation: 
                     let _ = child.kill();
                     let _ = child.wait();
                     if timeout_is_violation {
+                        // the child prints {"progress": "<fingerprint>|<what>"} before each step
+                        let mut out = String::new();
+                        use std::io::Read;
+                        child.stdout.take().unwrap().read_to_string(&mut out).ok();
+                        let last = out
+                            .lines()
+                            .rev()
+                            .find(|l| l.starts_with("{\"progress\""))
+                            .and_then(|l| serde_json::from_str::<Value>(l).ok())
+                            .and_then(|v| v["progress"].as_str().map(|s| s.to_string()))
+                            .unwrap_or_default();
+                        let mut parts = last.splitn(3, '|');
+                        let step = parts.next().unwrap_or("");
+                        let fp = parts.next().unwrap_or("");
+                        let what = parts.next().unwrap_or("");
+                        let resume = if step.parse::<u64>().is_ok() { format!(" [resume-after {step}]") } else { String::new() };
                         return Outcome {
                             violation: Some(Violation::new(
-                                "hang",
-                                format!("no verdict within {timeout_s}s (hang)"),
+                                format!("hang:{fp}"),
+                                format!("no verdict within {timeout_s}s (hang) while: {what}{resume}"),
                             )),
                             nontrivial: true,
                             ..Default::default()
@@ -361,9 +413,25 @@ pub fn verif_dir() -> PathBuf {
         .unwrap_or_else(|_| PathBuf::from("/verif"))
 }
 
+/// Remove scratch directories left behind by killed processes.
+pub fn clean_stale_scratch() {
+    let Ok(rd) = std::fs::read_dir("/dev/shm") else { return };
+    for e in rd.flatten() {
+        let name = e.file_name().to_string_lossy().into_owned();
+        if let Some(rest) = name.strip_prefix("nomt-mc.") {
+            if let Some(pid) = rest.rsplit('.').next().and_then(|p| p.parse::<u32>().ok()) {
+                if !Path::new(&format!("/proc/{pid}")).exists() {
+                    let _ = std::fs::remove_dir_all(e.path());
+                }
+            }
+        }
+    }
+}
+
 pub fn check_main(make: &dyn Fn(&str) -> Option<Box<dyn Engine>>, prop: &str, tier: &str) -> i32 {
     let t0 = Instant::now();
     let vdir = verif_dir();
+    clean_stale_scratch();
     let Some(engine) = make(prop) else {
         eprintln!("MACHINERY: no engine for property {prop}");
         return 2;
